@@ -33,17 +33,20 @@ TraceInit ==
     /\ l = 1 /\ taint = FALSE
     /\ srv = [Traces[tid].srv EXCEPT !.gex = Range(@), !.moduli = Range(@)]      \* JSON arrays -> sets
     /\ pc = "h_connect" /\ sock = NoSock /\ nConn = [p \in Phases |-> 0]
-    /\ hkIdx = 1 /\ hkParsed = {} /\ hkGot = EmptyFn /\ hkCur = ""
+    /\ hkTried = {} /\ hkParsed = {} /\ hkGot = EmptyFn /\ hkCur = ""
     /\ gexIdx = 1 /\ gexStage = "first" /\ gexStep = 1 /\ smallest = 0 /\ reconnFailed = FALSE
     /\ curReq = <<0, 0, 0>> /\ asked = EmptyFn /\ reported = EmptyFn
     /\ rate = [opened |-> 0, counted |-> 0, inflight |-> 0, ticks |-> 0, stage |-> "open", pending |-> 0]
     /\ faults = 0 /\ waits = 0 /\ lastRead = <<0, "">> /\ handshakeOK = FALSE /\ reportShown = FALSE /\ exit = -1
     /\ kexReqOutside = FALSE /\ maxKexReq = 0 /\ openAtExit = 0
+    /\ hs = [sshv |-> IF srv.try = "1" THEN 1 ELSE 2, orphans |-> 0, listening |-> 0]
 
 Total(c) == c["handshake"] + c["hostkey"] + c["gex"] + c["rate"]
 \* the observable effect of the step (vars -> vars'); "" if it has none
 Effect ==
     IF pc' = "done" /\ pc # "done" THEN "exit"
+    ELSE IF hs'.listening > hs.listening THEN "listen"
+    ELSE IF hs'.orphans > hs.orphans THEN ""                 \* the abandoned socket is not closed yet
     ELSE IF nConn'["rate"] # nConn["rate"] THEN "connect-nb"
     ELSE IF Total(nConn') # Total(nConn) THEN "connect"
     ELSE IF rate'.inflight < rate.inflight THEN "close-nb"
@@ -60,8 +63,10 @@ MatchAt(eff, e) ==
     CASE eff = "exit" ->
             /\ e.e = "exit" /\ e.status = exit /\ e.report = reportShown /\ e.open = 0 /\ e.waits <= Total(nConn)
       [] eff = "readfail" -> e.e = "readfail" /\ e.kind = (IF lastRead'[2] = "stall" THEN "timeout" ELSE "eof")
+                             /\ (lastRead'[2] = "mismatch" => e.mismatch)     \* the version-mismatch text was what the peer sent
       [] eff = "connect-nb" -> e.e = "connect" /\ e.nb /\ e.ok = (rate'.inflight = rate.inflight + 1)
-      [] eff = "connect" -> e.e = "connect" /\ ~e.nb /\ e.ok = sock'.open
+      [] eff = "connect" -> e.e = "connect" /\ ~e.nb /\ e.ok = sock'.open /\ e.accepted = (srv.role = "client")
+      [] eff = "listen" -> e.e = "listen"
       [] eff = "close-nb" -> e.e = "close" /\ e.nb
                              /\ (rate.stage = "handle" => (e.banner = (rate'.counted = rate.counted + 1)))
       [] eff = "close" -> e.e = "close" /\ ~e.nb
@@ -80,9 +85,14 @@ MatchAt(eff, e) ==
 \* process exit is the only step that reads the observation of what was still open; its own model effect (sock' = NoSock) stands
 \* for the socket finaliser, whose close events - if any - are consumed by Finalise below
 Finalise ==
-    /\ pc = "exit" /\ sock.open /\ HasEv /\ T[l].e = "close" /\ ~T[l].nb
-    /\ sock' = NoSock /\ l' = l + 1
-    /\ UNCHANGED <<srv, pc, nConn, hkIdx, hkParsed, hkGot, hkCur, gexIdx, gexStage, gexStep, smallest, reconnFailed, curReq, asked,
+    /\ pc = "exit" /\ HasEv
+    /\ \/ /\ T[l].e = "close" /\ ~T[l].nb
+          /\ \/ sock.open /\ sock' = NoSock /\ hs' = hs
+             \/ hs.orphans > 0 /\ sock' = sock /\ hs' = [hs EXCEPT !.orphans = @ - 1]
+       \/ /\ T[l].e = "unlisten" /\ hs.listening > 0
+          /\ sock' = sock /\ hs' = [hs EXCEPT !.listening = @ - 1]
+    /\ l' = l + 1
+    /\ UNCHANGED <<srv, pc, nConn, hkTried, hkParsed, hkGot, hkCur, gexIdx, gexStage, gexStep, smallest, reconnFailed, curReq, asked,
                    reported, rate, faults, waits, lastRead, handshakeOK, reportShown, exit, kexReqOutside, maxKexReq, openAtExit, tid, taint>>
 
 \* A step of the tool model, bound to the trace.  A read step (the environment chose its outcome) shows as:
@@ -99,11 +109,11 @@ Bound ==
          /\ taint' = IF Effect = "connect" THEN FALSE ELSE (taint \/ skip = 1)
          /\ LET base == l + skip
                 eff == Effect
-                effs == (IF ReadStep /\ lastRead'[2] \in {"eof", "stall"} THEN <<"readfail">> ELSE <<>>)
+                effs == (IF ReadStep /\ lastRead'[2] \in {"eof", "stall", "mismatch"} THEN <<"readfail">> ELSE <<>>)
                         \o (IF eff = "" THEN <<>> ELSE <<eff>>)
             IN  /\ \A i \in 1..Len(effs) : (base + i - 1 <= Len(T)) /\ MatchAt(effs[i], T[base + i - 1])
                 /\ l' = base + Len(effs)
-                /\ (eff = "exit" => ~sock.open)      \* nothing left for the finaliser that the trace does not show closed
+                /\ (eff = "exit" => (~sock.open /\ hs.orphans = 0 /\ hs.listening = 0))      \* nothing left for the finaliser that the trace does not show closed
     /\ UNCHANGED tid
 
 TraceNext == Bound \/ Finalise
